@@ -119,8 +119,12 @@ func (s *seqRun) coherence() {
 		for i := uint64(0); i < x.n; i++ {
 			disk = append(disk, st.Txn.Load(addr.MkAddr(x.start+i, 0), common.NBITBLOCK).Data...)
 		}
+		// (numbers the allocator does not cover cannot be handed out: they count as in use)
+		for len(mem) < len(disk) {
+			mem = append(mem, 0xff)
+		}
 		if !bytes.Equal(mem, disk) {
-			for i := range mem {
+			for i := range disk {
 				if mem[i] != disk[i] {
 					s.oracle("C10", "allocator-differs-from-bitmap", fmt.Sprintf("%s allocator byte %d (numbers %d..%d): memory %08b, logical disk %08b", x.name, i, i*8, i*8+7, mem[i], disk[i]))
 					break
